@@ -106,14 +106,17 @@ GRestartCrash ==        \* the recovering process dies after Engine.cleanup, bef
             /\ LET s1 == RecCleanup(st) IN st' = [Crash(s1, LenT(s1), FALSE) EXCEPT !.rpc = "down"]
             /\ Log([a |-> "restartcrash"])
 
+\* batches of the generator: single points, and pairs that share the key or the timestamp
+GBatches == {b \in Batches : Cardinality(b) = 1 \/ \E p, q \in b : p # q /\ (p[1] = q[1] \/ p[2] = q[2])}
+
 GInit == Init /\ hist = <<>>
 GNext ==
   /\ Len(hist) < GenLen
-  /\ \/ \E b \in Batches : GWrite(b)
+  /\ \/ \E b \in GBatches : GWrite(b)
      \/ GSnapshot \/ GSnapBegin \/ GSnapEnd \/ GCompact \/ GReopen
      \/ \E S \in Sels, lo \in Times, hi \in Times, open \in BOOLEAN : lo <= hi /\ GDelete(S, lo, hi, open)
      \/ GCrashIdle
-     \/ \E b \in Batches, how \in {"lost", "torn", "full"} : GCrashWrite(b, how)
+     \/ \E b \in GBatches, how \in {"lost", "torn", "full"} : GCrashWrite(b, how)
      \/ \E stage \in {"taken", "tmp", "renamed", "cleared", "walremoved"} : GCrashSnap(stage)
      \/ \E stage \in {"tmp", "renamed", "removed1", "synced"} : GCrashComp(stage)
      \/ \E S \in Sels, lo \in Times, hi \in Times, stage \in {"tombstoned", "cache", "wal"} : lo <= hi /\ GCrashDel(S, lo, hi, stage)
